@@ -47,6 +47,11 @@ THEOREMS = [
     'C02.api_dvect_end_to_end', 'C02.api_dmag_end_to_end', 'C02.displacement_ok_iff', 'C02.api_displacement_end_to_end',
     'C02.api_system_end_to_end', 'C02.pbcSetter_ok_iff', 'C02.dvectApi_flat_eq_rows', 'C02.dvectApi_error_class', 'C02.dvectApi_value_iff',
     'C02.World.disp_source', 'C02.World.sysDvect_source', 'C02.source_true_nearest_ortho', 'C02.source_true_nearest_tilted',
+    # second extender pass: a condition on the CELL alone for the last clause (all integer shifts, any pair in the cell), the
+    # counterexamples showing it cannot be dropped (within and outside the LAMMPS tilt limits), System.box_set from the source
+    'C02.normSq_vecMul_le', 'C02.cover_true_nearest', 'C02.gram_true_nearest', 'C02.source_true_nearest_gram',
+    'C02.cell_condition_needed', 'C02.sheared_condition_needed',
+    'C02.Source.gen_sysBoxSet_eq_model', 'C02.Source.gen_box_set_scale_default',
 ]
 PARTIAL = {}
 RULE = ('cells: diagonal, rotated/left-handed mutually orthogonal, LAMMPS-triclinic, general 3x3 (det != 0), strongly '
@@ -3458,6 +3463,73 @@ def translate():
     A('def pbcSetter (value : List Int) : Option (Bool × Bool × Bool) :=')
     A('  let pbc := value.map fun v => v != 0')
     A('  if pbc.length = 3 then some (pbc.getD 0 false, pbc.getD 1 false, pbc.getD 2 false) else none')
+    A('')
+    # System.box_set: the order of its three state changes (second extender pass)
+    bfn = [n for n in cls.body if isinstance(n, a.FunctionDef) and n.name == 'box_set']
+    if len(bfn) != 1:
+        _terr('System.py: exactly one method box_set expected')
+    bfn = bfn[0]
+    ba = bfn.args
+    if [x.arg for x in ba.args] != ['self'] or ba.kwarg is None or ba.kwarg.arg != 'kwargs' or ba.vararg or ba.kwonlyargs \
+            or ba.posonlyargs or bfn.decorator_list:
+        _terr('System.py: box_set is not `def box_set(self, **kwargs)` without decorators')
+    bb = _body(bfn)
+    if len(bb) != 3:
+        _terr(f'System.py: box_set has {len(bb)} statements, expected pop / type check / if')
+    st0 = bb[0]
+    ok0 = isinstance(st0, a.Assign) and len(st0.targets) == 1 and a.unparse(st0.targets[0]) == 'scale' \
+        and isinstance(st0.value, a.Call) and a.unparse(st0.value.func) == 'kwargs.pop' and not st0.value.keywords \
+        and len(st0.value.args) == 2 and isinstance(st0.value.args[0], a.Constant) and st0.value.args[0].value == 'scale' \
+        and isinstance(st0.value.args[1], a.Constant) and isinstance(st0.value.args[1].value, bool)
+    if not ok0:
+        _terr(f'System.py: box_set does not start with `scale = kwargs.pop(\'scale\', <bool>)`: {a.unparse(st0)[:80]}')
+    scale_default = st0.value.args[1].value
+    st1 = bb[1]
+    ok1 = isinstance(st1, a.If) and not st1.orelse and a.unparse(st1.test) == 'not isinstance(scale, bool)' \
+        and len(st1.body) == 1 and isinstance(st1.body[0], a.Raise) and isinstance(st1.body[0].exc, a.Call) \
+        and a.unparse(st1.body[0].exc.func) == 'TypeError'
+    if not ok1:
+        _terr(f'System.py: box_set: the second statement is not the bool check raising TypeError: {a.unparse(st1)[:80]}')
+    st2 = bb[2]
+    if not (isinstance(st2, a.If) and a.unparse(st2.test) in ('scale is True', 'scale', 'scale == True') and st2.orelse):
+        _terr(f'System.py: box_set: the third statement is not `if scale is True: … else: …`: {a.unparse(st2)[:80]}')
+
+    def boxset_branch(stmts):
+        lines, defined = [], set()
+        for x in stmts:
+            if isinstance(x, a.Assign) and len(x.targets) == 1 and isinstance(x.targets[0], a.Name) \
+                    and a.unparse(x.value) == "self.atoms_prop('pos', scale=True)":
+                nm = x.targets[0].id
+                if nm in ('w', 's', 'v', 'o', 'scale'):
+                    _terr(f'System.py: box_set: variable name {nm} clashes')
+                defined.add(nm)
+                lines.append(f'(World.sposOf w s) >>= fun {nm} =>')
+            elif isinstance(x, a.Expr) and a.unparse(x.value) == 'self.box.set(**kwargs)':
+                lines.append('(World.boxSetOf w s v o) >>= fun w =>')
+            elif isinstance(x, a.Expr) and isinstance(x.value, a.Call) and a.unparse(x.value.func) == 'self.atoms_prop' \
+                    and len(x.value.args) == 1 and isinstance(x.value.args[0], a.Constant) and x.value.args[0].value == 'pos' \
+                    and sorted(k.arg or '' for k in x.value.keywords) == ['scale', 'value']:
+                kw = {k.arg: k.value for k in x.value.keywords}
+                if not (isinstance(kw['scale'], a.Constant) and kw['scale'].value is True and isinstance(kw['value'], a.Name)):
+                    _terr(f'System.py: box_set: unsupported write of the positions {a.unparse(x)[:80]}')
+                if kw['value'].id not in defined:
+                    _terr(f'System.py: box_set: {kw["value"].id} is written back before it is read')
+                lines.append(f'(World.setSpos w s {kw["value"].id}) >>= fun w =>')
+            else:
+                _terr(f'System.py: box_set: unsupported statement {a.unparse(x)[:80]}')
+        return lines + ['some w']
+    A('/-! ### `System.box_set(**kwargs)` (atomman/core/System.py): `scale` popped (default below, must be a `bool`), then the')
+    A('    statements of the two branches in SOURCE order, in terms of the primitives `World.sposOf` (relative positions under the')
+    A('    Box held now), `World.boxSetOf` (`self.box.set(**kwargs)`: the Box object changes in place), `World.setSpos`. -/')
+    A('def sysBoxSet [Div K] (w : World K) (s : Nat) (v : M3 K) (o : V3 K) (scale : Bool) : Option (World K) :=')
+    A('  if scale = true then')
+    for ln in boxset_branch(st2.body):
+        A('    ' + ln)
+    A('  else')
+    for ln in boxset_branch(st2.orelse):
+        A('    ' + ln)
+    A('/-- the default of `scale`; a non-`bool` value raises TypeError before anything is changed. -/')
+    A(f'def boxSetScaleDefault : Bool := {"true" if scale_default else "false"}')
     A('')
     # displacement
     dsrc = cm.source('atomman/core/displacement.py')
